@@ -110,17 +110,48 @@ var semverRegex = regexp.MustCompile(`^(0|[1-9]\d*)\.(0|[1-9]\d*)\.(0|[1-9]\d*)$
 // prereleases (“1.0.0-rc1“) and no build metadata (“1.0.0+foo“).
 // Mirrors Python's vgi_rpc.metadata.parse_version.
 func parseSemver(value string) (major, minor, patch int, err error) {
+	ma, mi, pa, err := semverFields(value)
+	if err != nil {
+		return 0, 0, 0, err
+	}
+	major, _ = strconv.Atoi(ma)
+	minor, _ = strconv.Atoi(mi)
+	patch, _ = strconv.Atoi(pa)
+	return major, minor, patch, nil
+}
+
+// semverFields validates value like parseSemver and returns the three
+// components as their decimal strings. Version comparison uses these rather
+// than parseSemver's ints: the grammar puts no bound on a component, and
+// strconv.Atoi saturates at MaxInt, which would make two distinct out-of-range
+// majors compare equal.
+func semverFields(value string) (major, minor, patch string, err error) {
 	m := semverRegex.FindStringSubmatch(value)
 	if m == nil {
 		//lint:ignore ST1005 message text mirrors Python's parse_version() verbatim for cross-language parity
-		return 0, 0, 0, fmt.Errorf(
+		return "", "", "", fmt.Errorf(
 			"Invalid protocol version %q: expected canonical semver "+
 				"MAJOR.MINOR.PATCH with non-negative integers and no leading zeros "+
 				"(no prereleases or build metadata).",
 			value)
 	}
-	major, _ = strconv.Atoi(m[1])
-	minor, _ = strconv.Atoi(m[2])
-	patch, _ = strconv.Atoi(m[3])
-	return major, minor, patch, nil
+	return m[1], m[2], m[3], nil
+}
+
+// compareDecimal compares two decimal strings without leading zeros (as
+// semverRegex guarantees) by numeric value: -1, 0 or +1.
+func compareDecimal(a, b string) int {
+	if len(a) != len(b) {
+		if len(a) < len(b) {
+			return -1
+		}
+		return 1
+	}
+	if a < b {
+		return -1
+	}
+	if a > b {
+		return 1
+	}
+	return 0
 }
